@@ -431,6 +431,36 @@ func oracleC09CLI(p *Pair, env *Env, a [][]byte) *Failure {
 	if c.exit != 0 && !lintPossible {
 		return &Failure{What: "format --check --all fails right after format", Detail: string(c.stdout)}
 	}
+	// the formatted file and files that differ from it in their line terminators only (CRLF on every line, on one line, no
+	// final newline): `--check` succeeds exactly for the bytes format would leave as they are — in text mode and in GitHub
+	// mode, for the file alone and under --all
+	canon := want.Out[0]
+	variants := [][]byte{canon, bytes.ReplaceAll(canon, []byte("\n"), []byte("\r\n")), bytes.Replace(canon, []byte("\n"), []byte("\r\n"), 1), bytes.TrimSuffix(canon, []byte("\n"))}
+	if i := bytes.LastIndexByte(bytes.TrimSuffix(canon, []byte("\n")), '\n'); i >= 0 {
+		variants = append(variants, append(append(append([]byte{}, canon[:i]...), '\r'), canon[i:]...))
+	}
+	for _, v := range variants {
+		if lintPossible {
+			break
+		}
+		f := p.Impl(Op{"format.file", [][]byte{v}}, env.timeout)
+		if f.Status != "ok" {
+			continue
+		}
+		unchanged := bytes.Equal(f.Out[0], v)
+		_ = os.WriteFile(filepath.Join(sb, rel), v, 0o644)
+		for _, argv := range [][]string{{"regex", "format", "-c", name}, {"-o", "github", "regex", "format", "-c", name}, {"regex", "format", "-c", "-a"}, {"-o", "github", "regex", "format", "-a", "-c"}} {
+			c := runCLI(env, sb, nil, append([]string{"-l", "disabled"}, argv...)...)
+			now, _ := os.ReadFile(filepath.Join(sb, rel))
+			if !bytes.Equal(now, v) {
+				return &Failure{What: "format --check wrote to the file", Detail: fmt.Sprintf("%v: %q -> %q", argv, v, now)}
+			}
+			if (c.exit == 0) != unchanged {
+				return &Failure{What: "format --check does not succeed exactly for the bytes format would leave as they are",
+					Detail: fmt.Sprintf("%v on %q: exit %d, format would leave the file unchanged: %v", argv, v, c.exit, unchanged)}
+			}
+		}
+	}
 	return nil
 }
 
